@@ -629,27 +629,30 @@ theorem ws_appSend_shape (token : Bytes → Bytes) (ext : Option Bytes) (s : Ws.
             rename_i hconn _ _
             rw [(Ws.sendWs_keeps s _).2.2.2.1, hconn] at h; cases h
         · exact hnil _
-      | close code =>
+      | close code reason =>
         simp only []
         split
         · exact WShape.plain _ _ (by simp [Ws.errorResponse, WPlain]) (fun h => by simp at h)
         · split
           · exact hnil _
-          · have hp := sendWs_evs { s with st := .closed } (.close (code.getD 1000))
-            rw [show Ws.sendWs { s with st := .closed } (.close (code.getD 1000)) =
-              ((Ws.sendWs { s with st := .closed } (.close (code.getD 1000))).1, (Ws.sendWs { s with st := .closed } (.close (code.getD 1000))).2.1,
-               (Ws.sendWs { s with st := .closed } (.close (code.getD 1000))).2.2) from rfl]
-            simp only []
-            split
-            · refine WShape.plain _ _ hp ?_
-              intro h; rw [(Ws.sendWs_keeps _ _).2.2.2.1] at h; cases h
-            · refine WShape.plain _ _ ?_ ?_
-              · intro e he
-                simp only [List.mem_append, List.mem_cons, List.not_mem_nil, or_false] at he
-                rcases he with he | he
-                · exact hp e he
-                · simp [he, WPlain]
-              · intro h; rw [(Ws.sendWs_keeps _ _).2.2.2.1] at h; cases h
+          · split
+            · exact hnil _          -- the close frame cannot be built: nothing is handed to the protocol
+            · rename_i k _
+              have hp := sendWs_evs { s with st := .closed } (.close k)
+              rw [show Ws.sendWs { s with st := .closed } (.close k) =
+                ((Ws.sendWs { s with st := .closed } (.close k)).1, (Ws.sendWs { s with st := .closed } (.close k)).2.1,
+                 (Ws.sendWs { s with st := .closed } (.close k)).2.2) from rfl]
+              simp only []
+              split
+              · refine WShape.plain _ _ hp ?_
+                intro h; rw [(Ws.sendWs_keeps _ _).2.2.2.1] at h; cases h
+              · refine WShape.plain _ _ ?_ ?_
+                · intro e he
+                  simp only [List.mem_append, List.mem_cons, List.not_mem_nil, or_false] at he
+                  rcases he with he | he
+                  · exact hp e he
+                  · simp [he, WPlain]
+                · intro h; rw [(Ws.sendWs_keeps _ _).2.2.2.1] at h; cases h
       | other => exact hnil _
 
 theorem appSendWs_fst (cfg : Cfg) (token : Bytes → Bytes) (ext : Option Bytes) (st : St) (i : Nat) (m : Option Ws.Msg) (s : Ws.S)
